@@ -22,7 +22,7 @@ CHURN = ["new_single", "new_multi", "new_other", "new_history", "unsub", "resub"
 
 def generate(seed, tier):
     rng = stream(seed, "c10")
-    names, style = gen_filter(rng, None, p_none=0.6)
+    names, style = gen_filter(rng, None, p_none=0.6, user=0.15)
     spec = gen_instance(rng, sparse_ids=0.03, large=0.008, max_jobs=4, max_machines=4, max_ops=4, positive=True if names else None)
     faulty = rng.random() < 0.6
 
